@@ -831,7 +831,7 @@ def front_parse_actions(R):
         for alt in alts:
             opsyms = [x for x in alt if x in tokspell or x == "bin_op"]
             spellings = list(tokspell.values()) if "bin_op" in alt else [tokspell[x] for x in opsyms] or [None]
-            for sp in spellings:
+            for sp, operand_kind in itertools.product(spellings, ("opaque", "same-operator", "other-operator")):
                 vals, nodes = [], []
                 for sym in alt:
                     if sym in tokspell or sym == "bin_op":
@@ -839,11 +839,18 @@ def front_parse_actions(R):
                     elif sym.startswith("'"):
                         vals.append(sym.strip("'"))
                     else:
-                        n_ = ag.E(f"n{len(nodes)}")
+                        if operand_kind == "opaque" or sp is None:
+                            n_ = ag.E(f"n{len(nodes)}")
+                        else:
+                            # the operand is itself a (parenthesised) binary expression: the action must not look inside it
+                            oo = op.Operation[spell2op[sp]] if operand_kind == "same-operator" else (op.Operation.ADD if sp != "+" else op.Operation.MUL)
+                            n_ = a.BinaryExpression(oo, ag.E(f"n{len(nodes)}l"), ag.E(f"n{len(nodes)}r"))
                         nodes.append(n_)
                         vals.append(n_)
+                if sp is None and operand_kind != "opaque":
+                    continue
                 res = act(mname, vals)
-                lab = f"{mname}:{' '.join(alt)}" + (f",{sp}" if sp else "")
+                lab = f"{mname}:{' '.join(alt)}" + (f",{sp},{operand_kind}-operands" if sp else "")
                 if sp is None:
                     R.check(f"FRONT.parse[{lab}]", P + mname, len(nodes) == 1 and res is nodes[0], detail="a parenthesised expression must be the inner expression itself")
                 else:
